@@ -173,6 +173,7 @@ def run(case):
     probs = []
     nt = []
     nvals = 0
+    ncols = 0
 
     def bad(col, kind, what, mask, a, b):
         i = int(np.argmax(~mask.reshape(len(mask), -1).all(axis=1))) if mask.ndim > 1 else int(np.argmax(~mask))
@@ -187,6 +188,7 @@ def run(case):
             continue
         c, u = np.asarray(conv[col]), np.asarray(unc[col])
         nvals += c.size
+        ncols += 1
         if c.dtype != u.dtype:
             probs.append(dict(sig=f'units:{kind}:{fam(col)}:dtype', msg=f'{col}: dtype {c.dtype} vs {u.dtype}'))
         factor = {'length': box, 'length-ratio': box, 'velocity': vel, 'velocity-ratio': vel, 'velocity-derived': vel, 'unchanged': 1.0}[kind]
@@ -244,5 +246,5 @@ def run(case):
                 probs.append(dict(sig=f'units:unchanged:{col}', msg=f'{col} changed by loading/conversion'))
         if not np.array_equal(np.asarray(conv['N']), cl['N_total']):
             probs.append(dict(sig='units:unchanged:N_total', msg='N (cleaned) != stored N_total'))
-    return dict(problems=probs, evals=2, nt=nt, extra=dict(values_checked=nvals),
+    return dict(problems=probs, evals=ncols, nt=nt, extra=dict(values_checked=nvals, column_comparisons=ncols, loads=2),
                 sample=dict(case=case, Box=box, Vel=vel) if rot == 0 and cleaned else None)
